@@ -99,6 +99,9 @@ Qed.
 Lemma sumZ_map_ext {A} (f : A -> Z) (g : A -> A) l : (forall x, f (g x) = f x) -> sumZ (map f (map g l)) = sumZ (map f l).
 Proof. intros H. induction l as [|a l IH]; cbn [map sumZ]; [reflexivity|]. rewrite H, IH. reflexivity. Qed.
 
+Lemma existsb_map_ext {A} (f : A -> bool) (g : A -> A) l : (forall x, f (g x) = f x) -> existsb f (map g l) = existsb f l.
+Proof. intros H. induction l as [|a l IH]; cbn [map existsb]; [reflexivity|]. rewrite H, IH. reflexivity. Qed.
+
 Lemma sumZ_repeat {A} (f : A -> Z) x n : sumZ (map f (repeat x n)) = (Z.of_nat n * f x)%Z.
 Proof. induction n as [|n IH]; cbn [repeat map sumZ]; [lia|]. rewrite IH. lia. Qed.
 
@@ -199,4 +202,313 @@ Proof.
   - right. rewrite H. rewrite !orb_true_r. reflexivity.
   - apply existsb_upd in H as [H|H]; auto. right. rewrite H. rewrite !orb_true_r. reflexivity.
   - right. rewrite H. rewrite !orb_true_r. reflexivity.
+Qed.
+
+(** ** The three windows of kvarn 0.6.3 (model [today]); each schedule was replayed on the real
+    code (files corpus/C10/refutations-today) and every observation agreed with the model. *)
+Definition sched_uncounted : list label :=
+  [EConn 0; LTake 0; SStep 0; SStep 0; SStep 0; SStep 0; KStep; KStep; KStep].
+Definition sched_panic : list label :=
+  [EConn 0; LTake 0; LStep 0; CStep 0; CPanic 0; SStep 0; SStep 0; SStep 0; SStep 0; LStep 0; LStep 0].
+Definition sched_late_waker : list label :=
+  [LStep 0; SStep 0; SStep 0; SStep 0; SStep 0; SStep 0; LStep 0; LStep 0; KStep; KStep; KStep; WStep 0].
+
+Lemma reachable_run v s sched s' : reachable v s -> run v s sched = Some s' -> reachable v s'.
+Proof.
+  revert s; induction sched as [|lb r IH]; cbn [run]; intros s R H.
+  - inversion H; subst; exact R.
+  - destruct (step v s lb) as [s1|] eqn:E; [|discriminate]. eapply IH; [|exact H]. eapply reach_step; eauto.
+Qed.
+
+Lemma nth_lt {A} (l : list A) i x : nth_error l i = Some x -> i < length l.
+Proof. intros H. apply nth_error_Some. congruence. Qed.
+
+Lemma quiescentb_sound v s : quiescentb v s = true -> quiescent v s.
+Proof.
+  unfold quiescentb, quiescent. intros H lb Henv.
+  apply negb_true_iff in H.
+  destruct (step v s lb) as [s'|] eqn:E; [|reflexivity]. exfalso.
+  assert (In lb (thread_labels s)).
+  { unfold thread_labels. rewrite !in_app_iff.
+    destruct lb as [i|i|i|c|c|k| |h|w]; cbn [step] in E; try discriminate Henv.
+    - left. apply in_map, in_seq. destruct (nth_error (ls s) i) eqn:N; [|discriminate]. apply nth_lt in N. lia.
+    - right; left. apply in_map, in_seq. destruct (nth_error (ls s) i) eqn:N; [|discriminate]. apply nth_lt in N. lia.
+    - do 2 right; left. apply in_map, in_seq. destruct (nth_error (cs s) c) eqn:N; [|discriminate]. apply nth_lt in N. lia.
+    - do 3 right; left. apply in_map, in_seq. destruct (nth_error (cs s) c) eqn:N; [|discriminate]. apply nth_lt in N. lia.
+    - do 4 right; left. apply in_map, in_seq. destruct (nth_error (callers s) k) eqn:N; [|discriminate]. apply nth_lt in N. lia.
+    - do 5 right; left. left. reflexivity.
+    - do 6 right; left. apply in_map, in_seq. destruct (nth_error (hooks s) h) eqn:N; [|discriminate]. apply nth_lt in N. lia.
+    - do 7 right. apply in_map, in_seq. destruct (nth_error (waiters s) w) eqn:N; [|discriminate]. apply nth_lt in N. lia. }
+  assert (existsb (enabledb v s) (thread_labels s) = true).
+  { apply existsb_exists. exists lb. split; auto. unfold enabledb. rewrite E. reflexivity. }
+  congruence.
+Qed.
+
+(** (a) wait() resolves while an accepted connection has not even been handed to its task *)
+Lemma finished_after_all_today_refuted :
+  exists s, reachable today s /\ finished s = true /\ all_done s = false.
+Proof.
+  destruct (run today (init today 1 1 0 1) sched_uncounted) as [s|] eqn:E; [|vm_compute in E; discriminate].
+  exists s. split; [eapply reachable_run; [apply reach_init|exact E]|].
+  vm_compute in E. inversion E; subst. split; reflexivity.
+Qed.
+
+(** (b) a panicking handler: everything has stopped, shutdown was requested, wait() never resolves *)
+Lemma no_hang_today_panic_refuted :
+  exists s, reachable today s /\ requested s = true /\ quiescent today s /\ finished s = false.
+Proof.
+  destruct (run today (init today 1 1 0 1) sched_panic) as [s|] eqn:E; [|vm_compute in E; discriminate].
+  exists s. split; [eapply reachable_run; [apply reach_init|exact E]|].
+  vm_compute in E. inversion E; subst. split; [reflexivity|]. split; [|reflexivity].
+  apply quiescentb_sound. vm_compute. reflexivity.
+Qed.
+
+(** (c) waker registered after notify: everything has stopped, wait() resolved, the listener is still bound *)
+Lemma no_hang_today_late_waker_refuted :
+  exists s, reachable today s /\ requested s = true /\ quiescent today s /\ finished s = true /\
+            forallb l_exited (ls s) = false.
+Proof.
+  destruct (run today (init today 1 1 0 1) sched_late_waker) as [s|] eqn:E; [|vm_compute in E; discriminate].
+  exists s. split; [eapply reachable_run; [apply reach_init|exact E]|].
+  vm_compute in E. inversion E; subst. split; [reflexivity|]. split; [|split; reflexivity].
+  apply quiescentb_sound. vm_compute. reflexivity.
+Qed.
+
+(** ** Preservation of [safe] by every transition of the repaired code *)
+Lemma safe_ext s s' :
+  safe s -> gC s' = gC s -> ls s' = ls s -> cs s' = cs s -> callers s' = callers s -> gD s' = gD s ->
+  comp s' = comp s -> finished s' = finished s -> safe s'.
+Proof.
+  intros [A B C D E] E1 E2 E3 E4 E5 E6 E7. constructor.
+  - rewrite E1, E2, E3. exact A.
+  - unfold hot. rewrite E1, E2, E3, E4, E5. exact B.
+  - rewrite E3. exact C.
+  - rewrite E5, E6. exact D.
+  - rewrite E6, E7. exact E.
+Qed.
+
+Lemma safe_upd_l s i l l' :
+  safe s -> nth_error (ls s) i = Some l -> ltok l' = ltok l -> (l_hot l' = true -> l_hot l = true) ->
+  safe (with_ls s (upd i l' (ls s))).
+Proof.
+  intros S N T Hh. destruct S as [A B C D E]. constructor; cbn [with_ls gC ls cs callers gD comp finished]; auto.
+  - rewrite (sumZ_upd ltok _ _ _ _ N). lia.
+  - intros H. apply B.
+    eapply (hot_upd_l s (with_ls s (upd i l' (ls s)))) in H; [|exact N|reflexivity|reflexivity|reflexivity|reflexivity].
+    destruct H as [H|H]; auto. eapply hot_intro_l; eauto.
+Qed.
+
+Lemma safe_upd_c s i p p' :
+  safe s -> nth_error (cs s) i = Some p -> ctok p' = ctok p -> (c_hot p' = true -> c_hot p = true) -> c_ok p' = true ->
+  safe (with_cs s (upd i p' (cs s))).
+Proof.
+  intros S N T Hh Ok. destruct S as [A B C D E]. constructor; cbn [with_cs gC ls cs callers gD comp finished]; auto.
+  - rewrite (sumZ_upd ctok _ _ _ _ N). lia.
+  - intros H. apply B.
+    eapply (hot_upd_c s (with_cs s (upd i p' (cs s)))) in H; [|exact N|reflexivity|reflexivity|reflexivity|reflexivity].
+    destruct H as [H|H]; auto. eapply hot_intro_c; eauto.
+  - apply forallb_upd; auto.
+Qed.
+
+Lemma safe_upd_s s i p p' :
+  safe s -> nth_error (callers s) i = Some p -> (s_hot p' = true -> s_hot p = true \/ (gC s <= 0)%Z) ->
+  safe (with_callers s (upd i p' (callers s))).
+Proof.
+  intros S N Hh. destruct S as [A B C D E]. constructor; cbn [with_callers gC ls cs callers gD comp finished]; auto.
+  intros H.
+  eapply (hot_upd_s s (with_callers s (upd i p' (callers s)))) in H; [|exact N|reflexivity|reflexivity|reflexivity|reflexivity].
+  destruct H as [H|H]; auto. destruct (Hh H) as [H1|H1]; auto. apply B. eapply hot_intro_s; eauto.
+Qed.
+
+Lemma safe_swapD s : safe s -> hot s = true -> safe (swapD s).
+Proof.
+  intros S Hh. pose proof (sf_hot _ S Hh) as HC. destruct S as [A B C D E]. unfold swapD.
+  destruct (gD s) eqn:ED; [constructor; auto|].
+  constructor; cbn [gC ls cs callers gD comp finished]; auto.
+  intros F. specialize (E F). rewrite E in D. assert (false = true) by (apply D; discriminate). discriminate.
+Qed.
+
+Lemma swapD_ls s : ls (swapD s) = ls s. Proof. unfold swapD; destruct (gD s); reflexivity. Qed.
+Lemma swapD_cs s : cs (swapD s) = cs s. Proof. unfold swapD; destruct (gD s); reflexivity. Qed.
+Lemma swapD_callers s : callers (swapD s) = callers s. Proof. unfold swapD; destruct (gD s); reflexivity. Qed.
+Lemma swapD_C s : gC (swapD s) = gC s. Proof. unfold swapD; destruct (gD s); reflexivity. Qed.
+
+(** the decrement of [remove_connection] by a thread holding one count *)
+Lemma safe_dec_l s i l l' :
+  safe s -> nth_error (ls s) i = Some l -> ltok l = 1%Z -> ltok l' = 0%Z ->
+  (l_hot l' = true -> (gC s - 1 <= 0)%Z) ->
+  safe (with_ls (with_C s (gC s - 1)) (upd i l' (ls s))).
+Proof.
+  intros S N T T' Hh. pose proof (tok_le_l _ _ _ S N) as G. destruct S as [A B C D E].
+  constructor; cbn [with_ls with_C gC ls cs callers gD comp finished]; auto.
+  - rewrite (sumZ_upd ltok _ _ _ _ N). lia.
+  - intros H.
+    eapply (hot_upd_l s (with_ls (with_C s (gC s - 1)) (upd i l' (ls s)))) in H; [|exact N|reflexivity|reflexivity|reflexivity|reflexivity].
+    destruct H as [H|H]; auto. specialize (B H). lia.
+Qed.
+Lemma safe_dec_c s i p p' :
+  safe s -> nth_error (cs s) i = Some p -> ctok p = 1%Z -> ctok p' = 0%Z -> c_ok p' = true ->
+  (c_hot p' = true -> (gC s - 1 <= 0)%Z) ->
+  safe (with_cs (with_C s (gC s - 1)) (upd i p' (cs s))).
+Proof.
+  intros S N T T' Ok Hh. pose proof (tok_le_c _ _ _ S N) as G. destruct S as [A B C D E].
+  constructor; cbn [with_cs with_C gC ls cs callers gD comp finished]; auto.
+  - rewrite (sumZ_upd ctok _ _ _ _ N). lia.
+  - intros H.
+    eapply (hot_upd_c s (with_cs (with_C s (gC s - 1)) (upd i p' (cs s)))) in H; [|exact N|reflexivity|reflexivity|reflexivity|reflexivity].
+    destruct H as [H|H]; auto. specialize (B H). lia.
+  - apply forallb_upd; auto.
+Qed.
+
+Lemma safe_step s lb s' : safe s -> step repaired s lb = Some s' -> safe s'.
+Proof.
+  intros S H. destruct lb as [i|i|i|c|c|k| |h|w]; cbn [step] in H.
+  - (* LStep *)
+    destruct (nth_error (ls s) i) as [l|] eqn:N; [|discriminate].
+    unfold step_listener in H. destruct l as [pc slot woken q]. cbn [l_pc l_slot l_woken l_queue fixA fixC repaired] in H.
+    destruct pc as [| | | | | | | |r|].
+    + inversion H; subst. eapply safe_upd_l; eauto; destruct (gS s); cbn; auto; discriminate.
+    + inversion H; subst. eapply safe_upd_l; eauto; cbn; auto; discriminate.
+    + inversion H; subst. eapply safe_upd_l; eauto; destruct (gS s); cbn; auto; discriminate.
+    + unfold park in H; cbn [l_queue] in H. destruct q; [|discriminate]. inversion H; subst.
+      eapply safe_upd_l; eauto; cbn; auto; discriminate.
+    + destruct (woken || negb (q =? 0)); [|discriminate]. inversion H; subst.
+      eapply safe_upd_l; eauto; cbn; auto; discriminate.
+    + (* LGot: count *)
+      inversion H; subst. pose proof (tok_le_l _ _ _ S N) as G. cbn in G. destruct S as [A B C D E].
+      constructor; cbn [with_ls with_C gC ls cs callers gD comp finished]; auto.
+      * rewrite (sumZ_upd ltok _ _ _ _ N). cbn. lia.
+      * intros Hh.
+        eapply (hot_upd_l s (with_ls (with_C s (gC s + 1)) _)) in Hh; [|exact N|reflexivity|reflexivity|reflexivity|reflexivity].
+        destruct Hh as [Hh|Hh]; [discriminate|]. specialize (B Hh). lia.
+    + (* LCounted: spawn *)
+      inversion H; subst. destruct S as [A B C D E].
+      constructor; cbn [with_ls with_cs with_C gC ls cs callers gD comp finished]; auto.
+      * rewrite (sumZ_upd ltok _ _ _ _ N), sumZ_app1. cbn. lia.
+      * intros Hh. apply B. unfold hot in *. cbn [with_ls with_cs ls cs callers gD] in Hh.
+        rewrite existsb_app1 in Hh. cbn [c_hot] in Hh. rewrite orb_false_r in Hh.
+        repeat (apply orb_true_iff in Hh; destruct Hh as [Hh|Hh]).
+        -- apply existsb_upd in Hh as [Hh|Hh]; [discriminate|]. rewrite Hh. reflexivity.
+        -- rewrite Hh. rewrite !orb_true_r. reflexivity.
+        -- rewrite Hh. rewrite !orb_true_r. reflexivity.
+        -- rewrite Hh. rewrite !orb_true_r. reflexivity.
+      * rewrite forallb_app1, C. reflexivity.
+    + inversion H; subst. eapply safe_upd_l; eauto; cbn; auto; discriminate.
+    + (* LRel r *)
+      destruct r; cbn [rstep] in H.
+      * inversion H; subst. cbn [ls with_C].
+        eapply safe_dec_l; eauto; destruct (gC s - 1 <=? 0)%Z eqn:Ez; cbn; auto; try discriminate. intros _. lia.
+      * inversion H; subst. eapply safe_upd_l; eauto; destruct (gS s); cbn; auto.
+      * inversion H; subst.
+        assert (Hh : hot s = true) by (eapply hot_intro_l; eauto).
+        pose proof (safe_swapD _ S Hh) as S2.
+        eapply (safe_upd_l (swapD s)); [exact S2 | rewrite swapD_ls; exact N | reflexivity | cbn; discriminate].
+    + discriminate.
+  - (* LTake *)
+    destruct (nth_error (ls s) i) as [l|] eqn:N; [|discriminate].
+    unfold step_take in H. destruct l as [pc slot woken q]. cbn [l_pc l_slot l_woken l_queue] in H.
+    destruct q; [discriminate|]. destruct (can_take repaired pc) eqn:CT; [|discriminate]. inversion H; subst.
+    eapply safe_upd_l; eauto; [|cbn; discriminate].
+    destruct pc as [| | | | | | | |r|]; cbn in CT; try discriminate; reflexivity.
+  - (* EConn *)
+    destruct (nth_error (ls s) i) as [l|] eqn:N; [|discriminate].
+    destruct (l_bound l); [|discriminate]. inversion H; subst.
+    eapply safe_upd_l; eauto; destruct l; cbn; auto.
+  - (* CStep *)
+    destruct (nth_error (cs s) c) as [p|] eqn:N; [|discriminate].
+    pose proof (forallb_nth _ _ _ _ (sf_cok _ S) N) as Ok.
+    unfold step_conn in H. destruct p as [| | |r|]; try discriminate.
+    + inversion H; subst. eapply safe_upd_c; eauto; cbn; auto; discriminate.
+    + destruct r; cbn [rstep] in H.
+      * inversion H; subst. cbn [cs with_C].
+        eapply safe_dec_c; eauto; destruct (gC s - 1 <=? 0)%Z eqn:Ez; cbn; auto; try discriminate. intros _. lia.
+      * inversion H; subst. eapply safe_upd_c; eauto; destruct (gS s); cbn; auto.
+      * inversion H; subst.
+        assert (Hh : hot s = true) by (eapply hot_intro_c; eauto).
+        pose proof (safe_swapD _ S Hh) as S2.
+        eapply (safe_upd_c (swapD s)); [exact S2 | rewrite swapD_cs; exact N | reflexivity | cbn; discriminate | reflexivity].
+  - (* CPanic *)
+    destruct (nth_error (cs s) c) as [p|] eqn:N; [|discriminate].
+    unfold step_panic in H. destruct p; try discriminate. cbn [fixB repaired] in H. inversion H; subst.
+    eapply safe_upd_c; eauto; cbn; auto; discriminate.
+  - (* SStep *)
+    destruct (nth_error (callers s) k) as [p|] eqn:N; [|discriminate].
+    unfold step_caller in H. destruct p; try discriminate.
+    + inversion H; subst.
+      assert (S1 : safe (with_S s true)) by (eapply safe_ext; eauto).
+      eapply (safe_upd_s (with_S s true)); eauto; try (cbn; discriminate).
+    + inversion H; subst.
+      assert (S1 : safe (with_init s)) by (eapply safe_ext; eauto).
+      eapply (safe_upd_s (with_init s)); eauto; try (cbn; discriminate).
+    + inversion H; subst. eapply safe_upd_s; eauto.
+      destruct (gC s <=? 0)%Z eqn:Ez; cbn; [intros _; right; lia|discriminate].
+    + inversion H; subst.
+      assert (Hh : hot s = true) by (eapply hot_intro_s; eauto).
+      pose proof (safe_swapD _ S Hh) as S2.
+      eapply (safe_upd_s (swapD s)); [exact S2 | rewrite swapD_callers; exact N | cbn; discriminate].
+    + inversion H; subst.
+      assert (S1 : safe (with_ls s (map notify_one (ls s)))).
+      { destruct S as [A B C D E]. constructor; cbn [with_ls gC ls cs callers gD comp finished]; auto.
+        - rewrite sumZ_map_ext; auto. intros x. unfold notify_one, ltok. destruct (l_slot x); reflexivity.
+        - intros Hh. apply B. unfold hot in *. cbn [with_ls ls cs callers gD] in Hh.
+          rewrite existsb_map_ext in Hh; auto. intros x. unfold notify_one, l_hot. destruct (l_slot x); reflexivity. }
+      eapply (safe_upd_s (with_ls s (map notify_one (ls s)))); eauto; try (cbn; discriminate).
+  - (* KStep *)
+    unfold step_comp in H. destruct S as [A B C D E].
+    assert (KT : forall pc ps w a r f k, (k <> KNone) -> (f = true -> k = KFinished) -> comp s <> KNone ->
+                 safe (with_comp s pc ps w a r f k)).
+    { intros pc ps w a r f k K1 K2 K3. constructor; cbn; auto. }
+    destruct (comp s) eqn:K; try discriminate.
+    + inversion H; subst. apply KT; try discriminate. intros F. specialize (E F). congruence.
+    + inversion H; subst. apply KT; try discriminate. intros F. specialize (E F). congruence.
+    + destruct (want s <=? received s).
+      * inversion H; subst. apply KT; try discriminate. auto.
+      * destruct (received s <? acks s); [|discriminate]. inversion H; subst. apply KT; try discriminate.
+        intros F. specialize (E F). congruence.
+  - (* HStep *)
+    destruct (nth_error (hooks s) h) as [p|] eqn:N; [|discriminate].
+    unfold step_hook in H. destruct p; try discriminate.
+    + inversion H; subst. eapply safe_ext; eauto.
+    + destruct (pre_sent s); [|discriminate]. inversion H; subst. eapply safe_ext; eauto.
+    + inversion H; subst. eapply safe_ext; eauto.
+  - (* WStep *)
+    destruct (nth_error (waiters s) w) as [[|]|] eqn:N; try discriminate.
+    destruct (finished s); [|discriminate]. inversion H; subst. eapply safe_ext; eauto.
+Qed.
+
+Lemma safe_reachable s : reachable repaired s -> safe s.
+Proof. induction 1 as [nl nc nh nw|s lb s' R IH H]; [apply safe_init|eapply safe_step; eauto]. Qed.
+
+(** a count of 0 means: no accept loop can still accept and no connection task is still to end *)
+Lemma safe_zero s : safe s -> (gC s <= 0)%Z ->
+  (forall i l, nth_error (ls s) i = Some l -> ltok l = 0%Z) /\ (forall i p, nth_error (cs s) i = Some p -> ctok p = 0%Z).
+Proof.
+  intros S Z. split.
+  - intros i l N. pose proof (tok_le_l _ _ _ S N). pose proof (ltok_nonneg l). lia.
+  - intros i p N. pose proof (tok_le_c _ _ _ S N). pose proof (ctok_nonneg p). lia.
+Qed.
+
+(** [finished_after_all]: in every reachable state of the repaired code, once the completion signal
+    has been sent every accepted connection is done (no loop holds a stream, no task is running). *)
+Lemma finished_after_all s : reachable repaired s -> finished s = true -> all_done s = true.
+Proof.
+  intros R F. pose proof (safe_reachable _ R) as S.
+  assert (D : gD s = true). { apply (sf_comp _ S). rewrite (sf_fin _ S F). discriminate. }
+  pose proof (sf_hot _ S (hot_intro_D _ D)) as Z.
+  destruct (safe_zero _ S Z) as [ZL ZC].
+  unfold all_done. apply andb_true_iff. split; apply forallb_forall; intros x Hin; apply In_nth_error in Hin as [i N].
+  - specialize (ZL _ _ N). unfold ltok in ZL. unfold l_holds. destruct (l_pc x) as [| | | | | | | |[]|]; try reflexivity; discriminate.
+  - specialize (ZC _ _ N). pose proof (forallb_nth _ _ _ _ (sf_cok _ S) N) as Ok.
+    destruct x as [| | |[]|]; try reflexivity; discriminate.
+Qed.
+
+(** also: no listener is bound any more once the signal has been sent *)
+Lemma finished_listeners_closed s : reachable repaired s -> finished s = true -> forallb (fun l => negb (l_bound l)) (ls s) = true.
+Proof.
+  intros R F. pose proof (safe_reachable _ R) as S.
+  assert (D : gD s = true). { apply (sf_comp _ S). rewrite (sf_fin _ S F). discriminate. }
+  pose proof (sf_hot _ S (hot_intro_D _ D)) as Z.
+  destruct (safe_zero _ S Z) as [ZL _].
+  apply forallb_forall; intros x Hin; apply In_nth_error in Hin as [i N].
+  specialize (ZL _ _ N). unfold ltok in ZL. unfold l_bound. destruct (l_pc x) as [| | | | | | | |[]|]; try reflexivity; discriminate.
 Qed.
